@@ -764,26 +764,54 @@ class List(list, base.Symbolic, pg_typing.CustomTyping):
     if self._value_spec and self._value_spec.min_size > 0:
       raise ValueError(
           f'List cannot be cleared: min size is {self._value_spec.min_size}.')
-    for item in self.sym_values():
+    removed = list(self.sym_values())
+    for item in removed:
       self._detach(item)
     super().clear()
     self._invalidate_content_cache()
+    if removed and flags.is_change_notification_enabled():
+      self._notify_field_updates([
+          self._field_update(i, item, pg_typing.MISSING_VALUE)
+          for i, item in enumerate(removed)
+      ])
 
   def sort(self, *, key=None, reverse=False) -> None:
     """Sorts the items of the list in place.."""
     if base.treats_as_sealed(self):
       raise base.WritePermissionError('Cannot sort a sealed List.')
+    old_items = list(self.sym_values())
     super().sort(key=key, reverse=reverse)
     self._update_children_indices()
-    self._invalidate_content_cache()
+    self._on_reordered(old_items)
 
   def reverse(self) -> None:
     """Reverse the elements of the list in place."""
     if base.treats_as_sealed(self):
       raise base.WritePermissionError('Cannot reverse a sealed List.')
+    old_items = list(self.sym_values())
     super().reverse()
     self._update_children_indices()
-    self._invalidate_content_cache()
+    self._on_reordered(old_items)
+
+  def _field_update(
+      self, index: int, old_value: Any, new_value: Any) -> base.FieldUpdate:
+    """Returns the field update for the element at an index."""
+    return base.FieldUpdate(
+        self.sym_path + index, self,
+        self._value_spec.element if self._value_spec else None,
+        old_value, new_value)
+
+  def _on_reordered(self, old_items: typing.List[Any]) -> None:
+    """Invalidates caches and notifies the positions whose element changed."""
+    updates = [
+        self._field_update(i, old, new)
+        for i, (old, new) in enumerate(zip(old_items, self.sym_values()))
+        if old is not new
+    ]
+    if updates:
+      self._invalidate_content_cache()
+      if flags.is_change_notification_enabled():
+        self._notify_field_updates(updates)
 
   def custom_apply(
       self,
